@@ -375,6 +375,16 @@ func (r *R) OfKind(k string, o Options, depth int) V {
 	return r.Scalar(k, o)
 }
 
+// AttrVal builds an Attr (or a group Attr) used in value position: the JSON rendering is a one-member object.
+func (r *R) AttrVal(o Options, depth int) V {
+	keyCounter++
+	k := "av" + strconv.Itoa(keyCounter)
+	inner := r.Value(o, depth+1)
+	v := V{Kind: "group", Items: []KV{{Key: k, Val: inner}}}
+	v.Go = KV{Key: k, Val: inner}.Attr()
+	return v
+}
+
 // KeyFn produces a fresh unique key.
 type KeyFn func() string
 
@@ -394,6 +404,9 @@ func (r *R) Group(o Options, depth int) V {
 
 // Attr materialises a KV as a library attribute.
 func (kv KV) Attr() slog.Attr {
+	if kv.Val.Kind == "group" && kv.Val.Go != nil {
+		return slog.NewAttr(kv.Key, kv.Val.Go) // an Attr in value position (AttrVal)
+	}
 	if kv.Val.Kind == "group" {
 		as := make([]slog.Attr, len(kv.Val.Items))
 		for i, it := range kv.Val.Items {
